@@ -142,15 +142,11 @@ pub fn has_async_writer(kind: Kind) -> bool {
     }
 }
 
-/// Can the async writer twin be configured like the sync writer was for this model? False for CRAM
-/// models written with the records-per-slice hook (H3: `cram::io::writer::Builder` only; the async
-/// builder always uses the preset's 10240 records per slice). Every encoder of `CramOpts` is
-/// selectable (the async builder takes the same `BlockContentEncoderMap`).
-pub fn async_writer_supports(model: &Model) -> bool {
-    match model {
-        Model::Cram { opts, .. } => opts.records_per_slice.is_none(),
-        _ => true,
-    }
+/// Can the async writer twin be configured like the sync writer was for this model? (Always, since
+/// hook H4 gave the async CRAM builder the records-per-slice setter that H3 gave the sync one; every
+/// encoder of `CramOpts` is selectable through the same `BlockContentEncoderMap`.)
+pub fn async_writer_supports(_model: &Model) -> bool {
+    true
 }
 
 pub fn has_async_query(index_kind: Kind, data_kind: Kind) -> bool {
@@ -645,14 +641,17 @@ pub async fn awrite(kind: Kind, model: &Model, sink: SimAsyncWrite, workers: usi
             w.shutdown().await
         }
         (Kind::Cram, Model::Cram { model, parsed, opts }) => {
-            // same options as fmt::cram::write_cram (writer_builder), minus the records-per-slice
-            // hook, which the async builder does not have (see async_writer_supports)
+            // same options as fmt::cram::write_cram (writer_builder), incl. the records-per-slice
+            // hook (H4 is the async twin of H3)
             let mut b = cram::r#async::io::writer::Builder::default()
                 .set_reference_sequence_repository(super::cram::repository(&model.refs))
                 .preserve_read_names(opts.preserve_read_names)
                 .encode_alignment_start_positions_as_deltas(opts.encode_alignment_start_positions_as_deltas);
             if let Some(map) = super::cram::encoder_map(opts) {
                 b = b.set_block_content_encoder_map(map);
+            }
+            if let Some(n) = opts.records_per_slice {
+                b = b.set_records_per_slice(n);
             }
             let mut w = b.build_from_writer(sink);
             w.write_header(&parsed.header).await?;
